@@ -1852,37 +1852,17 @@ theorem out_ok (s : State) (op : Op) (h : Inv s) : OutOk (abs s) op (step s op).
       rw [List.getElem?_eq_none (by omega)]
   | edgeToIndex a b =>
     simp only [OutOk, step]
-    cases hi : IMap.indexOf? s.edges (a, b) with
+    rw [abshas]
+    cases hi : IMap.indexOf? s.edges (edgeKey s.directed a b) with
     | none =>
-      have hn : IMap.get? s.edges (a, b) = none := (indexOf?_none _ _).1 hi
-      cases hE : (abs s).hasEdge a b with
-      | false => simp
-      | true =>
-        simp only [if_true]
-        right
-        rw [abshas] at hE
-        have hk : edgeKey s.directed a b ≠ (a, b) := by
-          intro he; rw [he, hn] at hE; cases hE
-        simp only [edgeKey] at hk
-        split at hk
-        · exact absurd rfl hk
-        · rename_i hc
-          simp only [Bool.or_eq_true, decide_eq_true_eq, not_or] at hc
-          refine ⟨?_, ?_, by first | rfl | trivial⟩
-          · show s.directed = false
-            cases hd : s.directed
-            · rfl
-            · exact absurd hd hc.1
-          · intro e; subst e; exact hc.2 (Nat.le_refl _)
+      have hn : IMap.get? s.edges (edgeKey s.directed a b) = none := (indexOf?_none _ _).1 hi
+      simp [hn]
     | some i =>
-      have hne : IMap.get? s.edges (a, b) ≠ none := by
+      have hne : IMap.get? s.edges (edgeKey s.directed a b) ≠ none := by
         intro hn; rw [(indexOf?_none _ _).2 hn] at hi; cases hi
-      have hs : (IMap.get? s.edges (a, b)).isSome = true := by
-        cases hg : IMap.get? s.edges (a, b) <;> simp_all
-      have hE : (abs s).hasEdge a b = true := by
-        rw [abshas, canon_key s h a b hs]; exact hs
-      simp only [hE, if_true]
-      left
+      have hs : (IMap.get? s.edges (edgeKey s.directed a b)).isSome = true := by
+        cases hg : IMap.get? s.edges (edgeKey s.directed a b) <;> simp_all
+      simp only [hs, if_true]
       refine ⟨i, allEdges s, rfl, allEdges_ok s h, ?_⟩
       rw [allEdges_length]; exact (indexOf?_some _ _ _ hi).1
   | edgeFromIndex i =>
